@@ -338,6 +338,17 @@ def fam_c08(tier, seed):
             sc["tags"] = ["pool", "n:%d" % n, var] + (["burst>4"] if n > 4 else [])
             scs.append(sc)
             k += 1
+    # several application threads parked in recv() (the usual worker arrangement), each of which keeps the one request
+    # it gets; as many connections, each sending one request at the same instant: no connection's request may wait for
+    # another connection's handler to come back
+    for nthreads in (2, 3, 4, 6):
+        for stagger in (0, 200_000):
+            cc = [simple_conn(c, 1, at_ns=2 * MS + c * stagger, plan=keep()) for c in range(nthreads)]
+            apps = [{"prog": [{"op": "recv", "kind": "recv"}, {"op": "handle", "sel": "all", "mode": "inline"}]} for _ in range(nthreads)]
+            sc = scenario("C08-p%03d" % k, "C08", cc, apps, horizon_ms=1000, single=False)
+            sc["tags"] = ["pool", "receivers-parked-burst", "demote", "threads:%d" % nthreads, "stagger:%d" % stagger]
+            scs.append(sc)
+            k += 1
     # connections that are over as far as the connection thread is concerned (last request handed out) but whose
     # handler keeps the request -- with a streamed body the thread stays behind it -- while new connections arrive
     for nheld, nnew in itertools.product([1, 2, 5], [1, 5]):
@@ -618,13 +629,18 @@ def fam_c01(tier, seed, prop="C01"):
             if late:
                 # the connection thread is still parsing the third request while earlier ones are answered
                 d["prog"] = [{"op": "send", "to": d["msgs"][1]["be"]}, {"op": "sleep", "ns": 500_000}, {"op": "send", "to": ln}]
+            halfclose = mode == "spawn" and len(combo) >= 2 and "panic" not in combo and (combo in (("r5", "r5"), ("r1025", "w2f"), ("w1f", "r5", "r5"), ("rbig", "r5")) or rng.random() < 0.12)
+            if halfclose and not late:
+                # the client has sent everything and closes its sending side while the answers are still being produced
+                # (it goes on reading): the order of the responses is the order of the requests all the same
+                d["prog"] = [{"op": "send", "to": ln}, {"op": "sleep", "ns": 300_000}, {"op": "half"}]
             if mode in ("spawn", "spawn0"):
                 apps = [serve("recv", "spawn")]
             else:
                 apps = [{"prog": [{"op": "collect", "k": len(combo), "kind": "recv"}, {"op": "handle", "sel": "all", "mode": "inline"},
                                   {"op": "serve", "kind": "recv", "mode": "inline", "max_empty": 1, "ms": 0}]}]
             sc = scenario("%s-%04d" % (prop, k), prop, [(d, j, ln)], apps, horizon_ms=100)
-            sc["tags"] = ["writer-chain", mode] + ["plan:" + "+".join(combo)] + (["demote"] if mode == "spawn0" and len(combo) == 2 else [])
+            sc["tags"] = ["writer-chain", mode] + ["plan:" + "+".join(combo)] + (["demote"] if mode == "spawn0" and len(combo) == 2 else []) + (["client-half-closes"] if halfclose and not late else [])
             if "w0" in combo:
                 sc["tags"].append("unused-writer-dropped")
             scs.append(sc)
@@ -807,7 +823,8 @@ def fam_c03(tier, seed):
                 # stream) in the middle of the body
                 ("zero-mid", [7, 0, 4096]),
                 # the helpers of std an application would normally use
-                ("std-read_to_end", "read_to_end"), ("std-copy", "copy"), ("std-read_to_string", "read_to_string"), ("std-vectored", "vectored")]
+                ("std-read_to_end", "read_to_end"), ("std-copy", "copy"), ("std-read_to_string", "read_to_string"), ("std-vectored", "vectored"),
+                ("std-vectored_then_plain", "vectored_then_plain")]
     for tag, kw in _body_variants("thorough") + [("cl300000", dict(framing="cl", body_len=300000)),
                                                  ("ch300000", dict(framing="chunked", body_len=300000, chunks=[65536, 1, 100000]))]:
         for ptag, sizes in programs:
@@ -817,7 +834,7 @@ def fam_c03(tier, seed):
                 continue
             if ptag == "one" and kw["body_len"] > (1100 if tier == "quick" else 5000):
                 continue
-            if kw["body_len"] > 100000 and ptag not in ("kib", "huge", "zero-mid", "std-read_to_end", "std-copy", "std-read_to_string", "std-vectored"):
+            if kw["body_len"] > 100000 and ptag not in ("kib", "huge", "zero-mid", "std-read_to_end", "std-copy", "std-read_to_string", "std-vectored", "std-vectored_then_plain"):
                 continue
             for follow, both, case in itertools.product(["none", "request", "garbage"], [False, True, "te-first"], ["std", "lower", "upper"]):
                 if both and kw["framing"] != "chunked":
@@ -916,7 +933,7 @@ def fam_c11(tier, seed):
     # the body is read to its end with one of std's helpers and the request is then kept: the successor must arrive
     # (also: a buffer sized by the declared length, read_exact of the declared length and one more read, single bytes --
     #  reads that are never larger than what is left of the body)
-    for helper in ("read_to_end", "read_to_string", "copy", "read_to_end_sized", "read_exact", "bytes", "vectored"):
+    for helper in ("read_to_end", "read_to_string", "copy", "read_to_end_sized", "read_exact", "bytes", "vectored", "vectored_then_plain"):
         for first in ("b1025", "chunked", "b1024", "b5000"):
             if first == "chunked" and helper in ("read_to_end_sized", "read_exact"):
                 continue
@@ -964,6 +981,9 @@ def fam_c12(tier, seed):
     k = 0
     conns_hdr = [None, "close", "keep-alive", "Close", "KEEP-ALIVE", "upgrade", "foo", "keep-alive, close", "foo, upgrade", "Keep-Alive",
                  "keep-alive, Upgrade", "Upgrade, keep-alive", "close,keep-alive", "TE, Close"]
+    # option lists longer than any fixed-size scratch buffer, the decisive option last
+    filler = ", ".join("x-opt-%02d" % i for i in range(9))
+    conns_hdr += ["keep-alive, " + filler + ", close", filler + ", Keep-Alive", filler + ", " + filler + ", Upgrade", filler + ", foo"]
     versions = ["1.1", "1.0"]
     cases = list(itertools.product(versions, conns_hdr))
     for n in (1, 2, 3):
